@@ -48,8 +48,10 @@ func NewFileCache[MetadataT any](cfg *config.Config, rootDir string, maxCacheSiz
 		maxCacheSize:    atomics.NewInt64(maxCacheSize),
 	}
 
-	c.subs.Add(cfg.Cache.MaxCacheSize.OnChange(func(newSize bytesize.ByteSize) {
-		c.maxCacheSize.Set(newSize.Bytes())
+	// Notifications are delivered asynchronously and may overtake each other, so the handler
+	// applies the current setting instead of the value carried by the notification.
+	c.subs.Add(cfg.Cache.MaxCacheSize.OnChange(func(bytesize.ByteSize) {
+		c.maxCacheSize.Set(cfg.Cache.MaxCacheSize.Read().Bytes())
 	}))
 
 	c.janitor = newCacheJanitor(cfg, cleanupInterval, cacheFunctions[MetadataT]{
